@@ -518,7 +518,20 @@ func runC16(c *Ctx) error {
 			c.Oracle(cls == 0 && sameDelivery(out, recs, offs, lens, 0) && vend == b.GoodEnd, "txn-units:"+us[b.NGood].Bad,
 				"malformed group: delivered entries are not exactly the well-formed units before it", J{"data": b.Data, "bad": us[b.NGood].Bad})
 
-		case 10: // quirk stream: version-0 transactional entries (the writer asserts commitTs != 0)
+		case 10: // quirk streams
+			if c.kinds["IterHeaderFlipPanic"] == 0 {
+				// one flipped bit in the value-length byte of an intact record with a 5-byte expiry whose
+				// low 25 bits are ones (e.g. 0x65FFFFFF = March 2024): the varint runs on into the expiry,
+				// uint32(vlen) = 2^32-128+50, klen+vlen wraps to 22 < klen and e.Key = buf[:klen] panics
+				r := lrec{Key: y.KeyWithTs(bytes.Repeat([]byte("k"), 92), 7), Val: bytes.Repeat([]byte("v"), 50), Exp: 0x65FFFFFF}
+				b := buildLog(c, []lunit{{Recs: []lrec{c.plainRec(3)}}, {Recs: []lrec{r}}}, lenc{})
+				data := append([]byte{}, b.Data...)
+				data[int(b.RecOff[1])+3] ^= 0x80
+				_, _, cls := c.iterCase("IterHeaderFlipPanic", data, 0, J{"data": data})
+				c.Extra["header_bitflip_panics"] = cls == badger.VerifRdPanic
+				continue
+			}
+			// version-0 transactional entries (the writer asserts commitTs != 0)
 			us := []lunit{{Recs: []lrec{c.txnRec(0)}}}
 			switch c.Rng.Intn(3) {
 			case 0:
@@ -581,7 +594,7 @@ func runC16(c *Ctx) error {
 			b := buildLog(c, us, lenc{})
 			data := append([]byte{}, b.Data...)
 			tk := c.Rng.Intn(4)
-			if tk == 2 && c.kinds["wrap-alloc-iter"] >= 1 {
+			if tk == 2 { // (the panic tail is exercised once per run by IterHeaderFlipPanic: 8 GiB of address space each)
 				tk = 0
 			}
 			switch tk {
